@@ -3,5 +3,5 @@ CONSTANTS
   NN = 2
   Mag = 2
   Fam4 = TRUE
-INVARIANTS Inv_LUCertificate Inv_Parity Inv_Det Inv_Route Inv_Solve Inv_Inverse Emit
+INVARIANTS Inv_LUCertificate Inv_Parity Inv_Det Inv_Route Inv_Solve Inv_Inverse Inv_SolveHomogeneous Emit
 CHECK_DEADLOCK FALSE
